@@ -79,8 +79,9 @@ class FlowImpl:
         self.exc = OSError(errno.EPIPE, "injected connection failure")
         self.lost = "no"
 
-    def _waiters(self) -> list[asyncio.Future[Any]]:
-        return list(getattr(self.flow, "_WriteFlowControl__drain_waiters"))
+    def _waiters(self) -> list[asyncio.Future[Any]] | None:
+        w = getattr(self.flow, "_WriteFlowControl__drain_waiters", None)
+        return None if w is None else list(w)
 
     def _after_step(self, s: int, yielded: Any) -> None:
         task = self.tasks[s]
@@ -186,12 +187,15 @@ class FlowImpl:
                 fut.append("exception")
             else:
                 fut.append("result")
-        return {
+        out = {
             "paused": self.flow.writing_paused(),
-            "waiters": tuple(by_fut.get(id(f), -1) for f in self._waiters()),
             "fut": tuple(fut),
             "pc": tuple(self.pc[s] for s in self.senders),
         }
+        waiters = self._waiters()
+        if waiters is not None:  # internal deque: compared when it exists under this name
+            out["waiters"] = tuple(by_fut.get(id(f), -1) for f in waiters)
+        return out
 
     def close(self) -> None:
         for t in self.tasks.values():
@@ -234,13 +238,37 @@ def run_model_and_replay(chk: Check) -> None:
     for _root, path in paths:
         impl = FlowImpl(senders)
         done: list[str] = []
+        # A drain() that reports its final outcome one scheduling step *earlier* than the specification (e.g. it fails fast on a
+        # connection that is already lost instead of yielding once first) is not a divergence as long as the outcome is the one the
+        # specification reaches for that call: such senders are tracked here until the specification catches up.
+        early: dict[int, str] = {}
         try:
             for action, args, dst in path:
                 label = f"{action}({', '.join(map(str, args))})"
                 done.append(label)
                 try:
-                    impl.apply(action, args)
+                    if action == "Yielded" and args[0] in early:
+                        pass  # the implementation already finished this call
+                    elif action == "Cancel" and args[0] in early:
+                        break  # the specification cancels a call the implementation has already finished: not comparable any further
+                    else:
+                        impl.apply(action, args)
                     got = impl.project()
+                    want0 = g.states[dst]
+                    for i, s_ in enumerate(senders):
+                        spec_pc, impl_pc = want0["pc"][i], got["pc"][i]
+                        if s_ in early:
+                            if spec_pc in ("ok", "err", "cancelled"):
+                                if spec_pc != early[s_]:
+                                    raise AssertionError(f"sender {s_}: drain() ended early with {early[s_]!r}, the specification ends with {spec_pc!r}")
+                                del early[s_]
+                        elif spec_pc == "yield" and impl_pc in ("ok", "err"):
+                            early[s_] = impl_pc
+                    if early:
+                        idxs = {senders.index(s_) for s_ in early}
+                        got = dict(got)
+                        for k in ("pc", "fut"):
+                            got[k] = tuple(want0[k][i] if i in idxs else v for i, v in enumerate(got[k]))
                 except AssertionError as exc:
                     chk.violation(
                         {"kind": "replay", "target": "WriteFlowControl", "action": action, "error": str(exc)[:60]},
